@@ -189,7 +189,7 @@ impl<'a, F: IVP> SolOut for DefaultSolOut<'a, F> {
         // Time comparisons allow 1e-12, but never more than a small fraction of the step just
         // taken: on a fine time scale (steps near or below 1e-12) the absolute value alone would
         // merge distinct accepted steps and drop their samples.
-        self.tol = (1e-3 * (*x - xold).abs()).min(1e-12);
+        self.tol = (1e-9 * (*x - xold).abs()).min(1e-12);
 
         // ============================================================================
         // Dense Output Collection
